@@ -390,13 +390,16 @@ def run(ctx):
     n017 = tla_intset(range(18))
     if ctx.quick:
         reach = [("seq", dict(Family='"seq"', D=4)),
-                 ("edge", dict(Family='"edge"', D=1, D2=1, N0=n017, Pats="{1, 2, 3, 4, 5}", Orders='{"ft"}')),
+                 ("edge", dict(Family='"edge"', D=1, D2=1, N0=n017, Pats="{1, 2, 5}", Orders='{"tf", "ft"}')),
                  ("size", dict(Family='"size"', D=5))]
         gen = [("seq", dict(Family='"seq"', D=4), [K_INSTALL], (K_DL1, K_DL2, K_DL3)),
                ("seq5v", dict(Family='"seq"', D=5, MaxBad=0), [K_INSTALL], (K_DL3, K_DL1, K_DL2)),
-               ("edge2", dict(Family='"edge"', D=2, N0="{1, 7, 8, 9, 16}", Pats="{1}", Orders='{"tf"}'), [K_INSTALL], (K_DL1, K_DL2, K_DL3)),
-               ("edge1", dict(Family='"edge"', D=1, D2=1, N0=n017, Pats="{1, 2, 3, 4, 5}", Orders='{"tf", "ft"}'), [K_INSTALL], (K_DL3, K_DL2, K_DL1)),
-               ("size", dict(Family='"size"', D=5), SIZES, ())]
+               # depth 2 around the byte boundaries: each program on ONE kind (install every other one); depth 1 below
+               # runs every position of every count 0..17 on install AND a download version
+               ("edge2", dict(Family='"edge"', D=2, N0="{1, 7, 8, 9, 16}", Pats="{1}", Orders='{"tf"}'), [],
+                (K_INSTALL, K_DL1, K_INSTALL, K_DL2, K_INSTALL, K_DL3)),
+               ("edge1", dict(Family='"edge"', D=1, D2=1, N0=n017, Pats="{1, 2, 5}", Orders='{"tf", "ft"}'), [K_INSTALL], (K_DL3, K_DL2, K_DL1)),
+               ("size", dict(Family='"size"', D=5), [K_SZ1], (K_SZ1W, K_SZ2))]
         nrand = 150
     else:
         reach = [("seq", dict(Family='"seq"', D=5)),
